@@ -27,10 +27,10 @@ AFFINE = [(0.5, -3.0), (2.0, 0.25), (3.0, 100.0)]
 def bounds(tier):
     if tier == "quick":
         return {"tie_free_max": [4, 4], "all_types_max": [3, 3],
-                "easy": [[0, 0], [1, 0], [0, 1], [2, 3], [3, 3], [5, 0], [0, 5]], "grids": ["irregular", "dyadic"]}
+                "easy": [[0, 0], [1, 0], [0, 1], [2, 3], [3, 3], [5, 0], [0, 5]], "grids": ["irregular", "dyadic", "uint"]}
     return {"tie_free_max": [6, 6], "all_types_max": [4, 4],
             "easy": [[0, 0], [1, 0], [0, 1], [2, 3], [3, 3], [5, 0], [0, 5], [1, 7], [7, 2]],
-            "grids": ["irregular", "dyadic", "int"]}
+            "grids": ["irregular", "dyadic", "int", "uint"]}
 
 
 def work(tier, seed):
@@ -71,7 +71,13 @@ def run(item, ctx, tier, seed):
         for ep, en in [tuple(e) for e in b["easy"]]:
             case = {"blocks": item["blocks"], "grid": item["grid"], "pos": pos, "neg": neg, "cfg": cfg,
                     "easy": [ep, en]}
-            ok, s = guarded(ctx, "construct", case, Scores, pos[::-1], neg[::-1], nb_easy_pos=ep, nb_easy_neg=en,
+            if item["grid"] == "uint":
+                import numpy as np
+
+                pin, nin = np.array(pos[::-1], dtype=np.uint8), np.array(neg[::-1], dtype=np.uint8)
+            else:
+                pin, nin = pos[::-1], neg[::-1]
+            ok, s = guarded(ctx, "construct", case, Scores, pin, nin, nb_easy_pos=ep, nb_easy_neg=en,
                             score_class=sc, equal_class=ec)
             if not ok:
                 continue
@@ -104,7 +110,7 @@ def run(item, ctx, tier, seed):
             if not e <= cap + 1e-12:
                 ctx.fail("eer-capped-by-hard-fractions", case, observed=e, expected=cap, snippet=snip)
             # affine images
-            if item["grid"] != "int":
+            if item["grid"] not in ("int", "uint"):
                 for a_, b_ in AFFINE:
                     apos, aneg = [a_ * x + b_ for x in pos], [a_ * x + b_ for x in neg]
                     ok, sa = guarded(ctx, "affine-construct", dict(case, a=a_, b=b_), Scores, apos, aneg,
